@@ -1,5 +1,5 @@
 CONSTANTS
-  QueryNames <- QN_default
+  QueryNames <- QN_both
   Slots <- C_Slots
   DirSlots <- Dir_small
   FieldNames = {}
